@@ -11,10 +11,13 @@ META = {
             '(cycle, missing parent, root = top of chain) + refusal rule + '
             'reported parent/root and in_tree listings; distinct = canonical '
             'forest shapes reached + (move kind, subtree size) + refusal '
-            'kinds'
+            'kinds; plus histories in which half of the writes meet one '
+            'injected database fault (DL, DLR, ERR, CONN at a random SQL '
+            'event) - the stored hierarchy must stay a forest whatever the '
+            'answer'
             ' plus a concurrent part: the C05-C07 scenario catalogue (and provider-tree races) run under the transaction-granularity scheduler, the same oracle evaluated on every committed state / committing step of every explored interleaving',
     'floors': {'concurrent_schedules': 100,
-               'moves': 5, 'moves_subtree_ge2_descendants': 1,
+               'faulted_requests': 100, 'moves': 5, 'moves_subtree_ge2_descendants': 1,
                'refusals_due': 5, 'views_checked': 10},
     'assumptions': ['SQLite backend', 'sequential histories + committed-state sequences of '
                     'transaction-level interleavings of request pairs/triples'],
@@ -37,6 +40,13 @@ def plan(tier, seed, scale):
     shards = histrun.plan_seeds(tier, seed, scale, 400, 8000,
                               25 if tier == 'quick' else 125,
                               extra={'steps': 60 if tier == 'quick' else 80})
+    # histories in which tree-changing requests meet a database fault
+    nf = int((48 if tier == 'quick' else 1440) * scale)
+    per = 6 if tier == 'quick' else 60
+    for i in range(0, nf, per):
+        shards.append({'seed': seed, 'first': i, 'count': min(per, nf - i),
+                       'tier': tier, 'hashseed': (i // per) % 3,
+                       'faulted': True, 'steps': 50, 'salt': 'faults'})
     n = max(1, int(len(CONC) * min(scale, 1)))
     for sh in conc.plan_scenarios(n, tier, seed, per=max(1, (n + 7) // 8)):
         sh['conc'] = True
@@ -55,9 +65,66 @@ def conc_shard(spec, res):
     conc.run_invariants('C09', CONC, spec, res, per_state=per_state)
 
 
+def fault_shard(spec, res):
+    """the same histories, but half of the writes run with one database
+    fault (deadlock with / without rollback by the DBMS, generic error, lost
+    connection) injected at a random SQL event; whatever the request
+    answers, the stored hierarchy must stay a forest with correct roots"""
+    from pv import faults
+    from pv.sqlwatch import SqlWatch
+    svc = histrun.Service()
+    watch = SqlWatch(svc.app.engine)
+    try:
+        for i in range(spec['first'], spec['first'] + spec['count']):
+            rng = histrun.hist_rng(spec, i)
+            svc.fresh()
+            gen = HistoryGen(rng, Names(rng), WEIGHTS)
+            d = svc.dump()
+            for _ in range(spec['steps']):
+                req = gen.next(d)
+                inj = None
+                if req['method'] != 'GET' and rng.random() < 0.5 and \
+                        len(d.providers) >= 2:
+                    inj = faults.Injector(
+                        rng.randrange(0, 30),
+                        rng.choice(['DL', 'DL', 'DLR', 'ERR', 'CONN']), watch)
+                    watch.start(inj)
+                try:
+                    resp = svc.client.send(req)
+                finally:
+                    if inj is not None:
+                        watch.stop()
+                d = svc.dump()
+                res.count('states_checked')
+                if inj is not None and inj.fired:
+                    res.count('faulted_requests')
+                    res.seen('fault', req['method'], inj.kind,
+                             resp.status // 100)
+                    if 200 <= resp.status < 300:
+                        res.count('faulted_requests_answered_2xx')
+                for kind, detail in monitors.forest_problems(d):
+                    res.violation(
+                        'C09|%s|%s|%s' % (
+                            kind, 'after-fault-' + inj.kind
+                            if inj is not None and inj.fired else 'history',
+                            '%s %s' % (req['method'],
+                                       req['path'].split('/')[1])),
+                        '%s %s -> %d: %s %s' % (req['method'], req['path'],
+                                                resp.status, kind, detail),
+                        {'history': svc.client.history(12),
+                         'fault': [inj.k, inj.kind] if inj is not None and
+                         inj.fired else None})
+                    break
+            res.count('histories')
+    finally:
+        svc.close()
+
+
 def run_shard(spec, res):
     if spec.get('conc'):
         return conc_shard(spec, res)
+    if spec.get('faulted'):
+        return fault_shard(spec, res)
     svc = histrun.Service()
     try:
         for i in range(spec['first'], spec['first'] + spec['count']):
